@@ -34,6 +34,9 @@ def run(ctx):
     try:
         checked = open(os.path.join(core.REPO, "internal/gontainer/gontainer.go"), "rb").read()
         out1 = os.path.join(tmp, "gen1.go")
+        # like `make self-compile`, regenerate OVER an existing copy of the checked-in file (made longer, so that a
+        # write that does not replace the file leaves a visible tail)
+        open(out1, "wb").write(checked + b"\n// stale tail of the previous file\n" * 200)
         rc, so = regen(os.path.join(core.CACHE, "gontainer"), core.REPO, out1)
         if rc != 0:
             violations.append({"sig": "self-config-rejected", "what": "the tool rejects its own configuration: " + so[-600:]})
@@ -56,6 +59,7 @@ def run(ctx):
                 if rc != 0:
                     violations.append({"sig": "regenerated-tool-does-not-build", "what": so[-600:]}); break
                 outg = os.path.join(tmp, "gen%d.go" % g)
+                open(outg, "wb").write(cur + b"\n// stale tail of the previous file\n" * 200)
                 rc, so = regen(b, work, outg)
                 if rc != 0:
                     violations.append({"sig": "regenerated-tool-fails", "what": so[-600:]}); break
